@@ -783,14 +783,14 @@ Theorem rendered_text_matches ct e full stripped tagged frags text s :
   forallb (frag_renderable e) frags = true ->
   vrle2re false full e stripped tagged frags = Ok text ->
   matches_frags ct false e frags s ->
-  re_model_match ct text s = Some true.
+  re_model_fullmatch ct text s = Some true.
 Proof.
   intros He Hr Hv Hm. unfold vrle2re in Hv.
   destruct (mapM (fragment2re false full e tagged) frags) as [parts|err] eqn:Ep; cbn [bind] in Hv; [|discriminate].
   injection Hv as <-. destruct (fragments_parts e full tagged He frags parts Hr Ep) as (its & K & Hparse & HK & Hhead & Hsem).
   specialize (Hsem ct s Hm).
   assert (Hend : forall f, parse_seq (S f) true [36] = Some ([], [])) by reflexivity.
-  unfold re_model_match, parse_regex. cbn [app]. change (Z.eqb 94 94) with true. cbv iota.
+  unfold re_model_fullmatch, parse_regex. cbn [app]. change (Z.eqb 94 94) with true. cbv iota.
   destruct stripped.
   - (* ^\s* ... \s*$ *)
     match goal with |- context [s2l ?x] => change (s2l x) with [92; 115; 42] end.
@@ -836,7 +836,7 @@ Theorem batch_text_covers ct o e stripped gt ex merged rex :
   table_ok ct -> 1 <= z_max_strings_in_group o ->
   batch_oracle_okb ct o e stripped gt ex = true ->
   batch_renderable ct o e stripped gt ex = true ->
-  forall s, In s (ex_strings ex) -> exists text, In text rex /\ re_model_match ct text s = Some true.
+  forall s, In s (ex_strings ex) -> exists text, In text rex /\ re_model_fullmatch ct text s = Some true.
 Proof.
   intros Hb Htab Hcap Horc Hren s Hs.
   destruct (batch_covers_checked ct o e stripped gt ex merged rex Hb Htab Hcap Horc s Hs) as [fs [Hin Hm]].
@@ -852,7 +852,7 @@ Theorem batch_text_each_matches ct o e stripped gt ex merged rex :
   table_ok ct -> 1 <= z_max_strings_in_group o ->
   batch_oracle_okb ct o e stripped gt ex = true ->
   batch_renderable ct o e stripped gt ex = true ->
-  forall text, In text rex -> exists s, In s (ex_strings ex) /\ re_model_match ct text s = Some true.
+  forall text, In text rex -> exists s, In s (ex_strings ex) /\ re_model_fullmatch ct text s = Some true.
 Proof.
   intros Hb Htab Hcap Horc Hren text Ht.
   destruct (mapM_In _ _ _ _ (batch_rex_of _ _ _ _ _ _ _ _ Hb) Ht) as [fs [Hin Hv]].
@@ -860,4 +860,11 @@ Proof.
   unfold batch_renderable in Hren. apply andb_true_iff in Hren as [He Hren]. apply mem_str_In in He.
   rewrite Hb in Hren. rewrite forallb_forall in Hren.
   exists s. split; [exact Hs|]. eapply rendered_text_matches; [exact He|apply Hren; exact Hin|exact Hv|exact Hm].
+Qed.
+
+(* what re.fullmatch accepts, re.match accepts *)
+Lemma fullmatch_match ct text s : re_model_fullmatch ct text s = Some true -> re_model_match ct text s = Some true.
+Proof.
+  unfold re_model_fullmatch, re_model_match. destruct (parse_regex text) as [items|]; [|discriminate].
+  intro H. injection H as ->. reflexivity.
 Qed.
